@@ -445,6 +445,7 @@ pub fn run_c07(tier: &str, seed: u64) -> campaign::CampaignResult {
         rows: Vec<(Outcome, u64)>,
         finding: Option<(Vec<Op>, Vec<Op>, u16, String)>,
         sample: Option<serde_json::Value>,
+        gave_up: bool,
     }
     let items: Vec<(&Program, &str)> = programs.iter().map(|pc| (&pc.program, pc.source.as_str())).collect();
     let builts = pipeline::build_all(&items, Mode::Module);
@@ -452,7 +453,8 @@ pub fn run_c07(tier: &str, seed: u64) -> campaign::CampaignResult {
         .par_iter()
         .zip(builts.into_par_iter())
         .map(|(pc, built)| {
-            let mut pp = PP { built: false, rows: vec![], finding: None, sample: None };
+            let mut pp = PP { built: false, rows: vec![], finding: None, sample: None, gave_up: false };
+            let mut timeouts = 0usize;
             let rules = match flat::flatten_program(&pc.program) {
                 Ok(r) => r,
                 Err(_) => return pp,
@@ -468,6 +470,16 @@ pub fn run_c07(tier: &str, seed: u64) -> campaign::CampaignResult {
                 let tree = strat.new_tree(&mut runner).expect("tree");
                 let (h, extra, choice) = tree.current();
                 let o = run_case(&pc.program, &rules, &built.exe, &h, &extra, choice);
+                // a program whose closes keep running into the watchdog (combinatorially large models)
+                // is given up after a few cases: inconclusive, counted, never a violation
+                if o.infra.as_deref() == Some("timeout") {
+                    timeouts += 1;
+                    if timeouts >= 3 {
+                        pp.rows.push((o, 0));
+                        pp.gave_up = true;
+                        break;
+                    }
+                }
                 let fp = util::hash64(&[pc.source.as_bytes(), o.script_b.as_bytes()]);
                 if pp.sample.is_none() && o.early_inside && o.finding.is_none() && o.discarded.is_none() {
                     pp.sample = Some(json!({"program": print::plain(&pc.program), "script": o.script_b, "condition": o.cond}));
@@ -496,6 +508,9 @@ pub fn run_c07(tier: &str, seed: u64) -> campaign::CampaignResult {
             continue;
         }
         built += 1;
+        if pp.gave_up {
+            ev.count("programs_given_up_after_three_watchdog_timeouts", 1);
+        }
         campaign::program_features(&pc.program, &mut ev);
         for (o, fp) in &pp.rows {
             ev.evaluations += 1;
